@@ -530,7 +530,12 @@ def write_requirements_file(
                 else:
                     comment.write(" ")
                 link = node.metadata.candidate.link
-                full_link = urllib.parse.urljoin(link[0], link[1])
+                if link[0] and urllib.parse.urlsplit(link[0]).scheme:
+                    full_link = urllib.parse.urljoin(link[0], link[1])
+                else:
+                    # A local (find-links) location: link[1] already is the
+                    # path of the file below the directory named by link[0].
+                    full_link = link[1]
                 comment.write(full_link)
 
             if comment.getvalue():
